@@ -1418,6 +1418,14 @@ func (x *runner) probeKnown() {
 	}
 }
 
+// blockingAgent: a served agent whose Wait blocks until released.
+type blockingAgent struct {
+	*recAgent
+	release chan struct{}
+}
+
+func (b *blockingAgent) Wait(code byte) error { <-b.release; return nil }
+
 func runC13(c *core.Ctx) {
 	log.SetOutput(io.Discard)
 	zerolog.SetGlobalLevel(zerolog.Disabled)
@@ -1429,6 +1437,60 @@ func runC13(c *core.Ctx) {
 	}
 	g := &gen{r: r, m: m}
 	x := &runner{c: c, g: g, fake: &recAgent{}}
+
+	// (beside everything else) long-lived clients: a slot request, then more than ten seconds without traffic, then
+	// further operations - and a Wait that stays blocked across that time.  The served agent answers everything.
+	idleStart := time.Now()
+	idle, idleErr := newSession(&recAgent{})
+	idleW, idleWErr := newSession(&recAgent{})
+	idleWaitDone := make(chan error, 1)
+	if idleErr == nil {
+		_, _ = idle.cli.ListSlots()
+		_, _ = idle.cli.ReadSlot("9a")
+	}
+	if idleWErr == nil {
+		_, _ = idleW.cli.ListSlots()
+		blocker := &blockingAgent{recAgent: &recAgent{}, release: make(chan struct{})}
+		if bs, err := newSession(blocker); err == nil {
+			_, _ = bs.cli.ListSlots()
+			go func() { idleWaitDone <- bs.cli.Wait(11) }()
+			defer func() {
+				// after the idle time: release the served Wait; the client must get its (nil) result
+				close(blocker.release)
+				select {
+				case err := <-idleWaitDone:
+					if err != nil {
+						c.Native("a Wait that was blocked for more than ten seconds returned an error although the served agent's Wait returned nil: "+err.Error(), "ListSlots; Wait(11) blocked 10.6 s on the served agent, then released")
+					} else {
+						c.NativeCheck(1)
+					}
+				case <-time.After(10 * time.Second):
+					c.Native("a Wait released by the served agent after a long block never returned to the client", nil)
+				}
+				bs.close()
+			}()
+		}
+	}
+	defer func() {
+		if idleErr != nil || idleWErr != nil {
+			return
+		}
+		if d := 10600*time.Millisecond - time.Since(idleStart); d > 0 {
+			time.Sleep(d)
+		}
+		if _, err := idle.cli.List(); err != nil {
+			c.Native("List on a client that had been idle for 10.6 s after a slot request failed although the served agent answers: "+err.Error(), "ListSlots; ReadSlot; 10.6 s without traffic; List")
+		} else {
+			c.NativeCheck(1)
+		}
+		if _, err := idleW.cli.ListSlots(); err != nil {
+			c.Native("ListSlots on a client that had been idle for 10.6 s after a slot request failed although the served agent answers: "+err.Error(), "ListSlots; 10.6 s without traffic; ListSlots")
+		} else {
+			c.NativeCheck(1)
+		}
+		idle.close()
+		idleW.close()
+	}()
 
 	// the PIV-tool parser and the remote-mode refusals first (regression input of the repaired defect runs first)
 	runTool(c, g)
